@@ -3,7 +3,8 @@
    LW.Sec.JoinSpec (LoRaWAN 1.1 section 6.2.2-6.2.4, 1.0.x section 6.2.4-6.2.5). *)
 From Coq Require Import List NArith ZArith Bool.
 From LW Require Import Base.Outcome Base.Bytes Crypto.AES Crypto.AESInv Crypto.CMAC Mac.Commands Mac.Stream
-     Frame.Model Frame.Spec Frame.RoundtripProofs Sec.MIC Sec.JoinAccept Sec.JoinSpec Sec.JoinAcceptProofs.
+     Frame.Model Frame.Spec Frame.RoundtripProofs Frame.CanonProofs Sec.MIC Sec.JoinAccept Sec.JoinSpec Sec.JoinAcceptProofs
+     Sec.WireMIC Sec.WireMICProofs.
 Import ListNotations.
 Open Scope N_scope.
 
@@ -103,6 +104,38 @@ Theorem C04_decrypt_encrypt_literal_refuted :
             wire_phy c04_witness <> c04_witness.
 Proof. exact decrypt_encrypt_literal_refuted. Qed.
 Print Assumptions C04_decrypt_encrypt_literal_refuted.
+
+(* ---- octets as received ----
+   The MIC theorems above speak about the decoded frame value, whose re-encoding the library hashes.  For octets from
+   the air: a join-request / rejoin-request whose MHDR RFU bits are zero is accepted exactly when its last four octets
+   are cmac(key, all other octets)[0..3].  Exceptions, known findings with witnesses: C04-2 (MHDR RFU bits, all three
+   join MIC validators) and C04-3 (RFU parts of a join-accept: RxDelay bits 7..4, channel-mask CFList octets 12..14). *)
+Theorem C04_up_join_received_octets : forall key bs b,
+  Forall (fun x => x < 256) bs -> rfu_zero bs = true ->
+  wire_validate_up_join key bs = Ok b ->
+  b = bytes_eqb (skipn (length bs - 4) bs) (mic_of key (firstn (length bs - 4) bs)).
+Proof. exact up_join_wire_validate. Qed.
+Print Assumptions C04_up_join_received_octets.
+
+Theorem C04_up_join_mhdr_rfu_refuted :
+  rfu_zero c04_2_received = false /\
+  wire_validate_up_join c04_2_key c04_2_sent = Ok true /\
+  wire_validate_up_join c04_2_key c04_2_received = Ok true /\
+  (let '(carried, specified) := wire_spec_up_join c04_2_key c04_2_received in bytes_eqb carried specified) = false.
+Proof. exact up_join_wire_mhdr_rfu_refuted. Qed.
+Print Assumptions C04_up_join_mhdr_rfu_refuted.
+
+Theorem C04_join_accept_rfu_refuted :
+  (exists q, wire_join_accept 255 [0;0;0;0;0;0;0;0] 0 c04_3_key c04_3_key (c04_3_wire 1) = Ok (q, true)
+             /\ payload_marshal (pl q) = Ok (c04_3_body 1)) /\
+  (exists q, wire_join_accept 255 [0;0;0;0;0;0;0;0] 0 c04_3_key c04_3_key (c04_3_wire 17) = Ok (q, false)
+             /\ payload_marshal (pl q) = Ok (c04_3_body 1)) /\
+  match wire_spec_join_accept 255 [0;0;0;0;0;0;0;0] 0 c04_3_key c04_3_key (c04_3_wire 17) with
+  | Some (body, carried, specified) => body = c04_3_body 17 /\ bytes_eqb carried specified = true
+  | None => False
+  end.
+Proof. exact join_accept_wire_rfu_refuted. Qed.
+Print Assumptions C04_join_accept_rfu_refuted.
 
 (* non-vacuity: a 28-byte join-accept with OptNeg and a channel CFList round-trips literally, and its
    1.1 MIC depends on the DevNonce *)
